@@ -93,6 +93,8 @@ def run_rules(prop, tier, facts_path, label):
         print("rule %-22s [%s] instances=%d obligations=%d discharged=%d violations=%d %s" % (
             rep["rule"], label, rep.get("instances", 0), rep.get("obligations", 0), rep.get("discharged", 0),
             len(rep["violations"]), rep.get("note", "")))
+        for u in rep.get("undecided", []):
+            print("UNDECIDED property=%s key=%s :: %s" % (prop, u["key"], u["message"]))
         for name, (got, floor) in rep.get("floors", {}).items():
             if got < floor:
                 findings.append(Finding(rep["rule"], "%s|anchor-missing|%s" % (rep["rule"], name),
@@ -201,6 +203,7 @@ def write_evidence(prop, tier, seed, crate, reports, findings, new, wall, extra=
             "exhaustive": True,
             "findings_total": len(findings),
             "findings_known": len(findings) - len(new),
+            "undecided": sum(len(r.get("undecided", [])) for r in reports),
             **(extra or {}),
         },
         "assumptions": meta.get("assumptions", []),
